@@ -39,6 +39,7 @@ func newOperations(
 // closed, the operation will be dropped. The queue is only deliberately closed
 // by a user.
 func (o *operations) Enqueue(op operation) {
+	verifYield("ops.Enqueue.enter", o)
 	o.mu.Lock()
 	defer o.mu.Unlock()
 	_ = o.tryEnqueue(op)
@@ -53,9 +54,12 @@ func (o *operations) tryEnqueue(op operation) bool {
 	}
 
 	if o.isClosed {
+		verifEvent("ops.enq", o, false)
+
 		return false
 	}
 	o.ops.PushBack(op)
+	verifEvent("ops.enq", o, true)
 
 	if o.busyCh == nil {
 		o.busyCh = make(chan struct{})
@@ -78,11 +82,13 @@ func (o *operations) IsEmpty() bool {
 func (o *operations) Done() {
 	var wg sync.WaitGroup
 	wg.Add(1)
+	verifYield("ops.Done.enter", o)
 	o.mu.Lock()
 	enqueued := o.tryEnqueue(func() {
 		wg.Done()
 	})
 	o.mu.Unlock()
+	verifYield("ops.Done.enqueued", o)
 	if !enqueued {
 		return
 	}
@@ -92,6 +98,7 @@ func (o *operations) Done() {
 // GracefulClose waits for the operations queue to be cleared and forbids
 // new operations from being enqueued.
 func (o *operations) GracefulClose() {
+	verifYield("ops.GracefulClose.enter", o)
 	o.mu.Lock()
 	if o.isClosed {
 		o.mu.Unlock()
@@ -105,6 +112,7 @@ func (o *operations) GracefulClose() {
 
 	busyCh := o.busyCh
 	o.mu.Unlock()
+	verifYield("ops.GracefulClose.marked", o)
 	if busyCh == nil {
 		return
 	}
@@ -129,6 +137,8 @@ func (o *operations) pop() func() {
 
 func (o *operations) start() {
 	defer func() {
+		verifYield("ops.start.defer", o)
+		defer verifYield("ops.start.exit", o)
 		o.mu.Lock()
 		defer o.mu.Unlock()
 		// this wil lbe the most recent busy chan
@@ -146,11 +156,15 @@ func (o *operations) start() {
 		go o.start()
 	}()
 
+	verifYield("ops.start.enter", o)
 	fn := o.pop()
 	for fn != nil {
+		verifYield("ops.start.run", o)
 		fn()
+		verifYield("ops.start.next", o)
 		fn = o.pop()
 	}
+	verifYield("ops.start.drained", o)
 	if !o.updateNegotiationNeededFlagOnEmptyChain.Load() {
 		return
 	}
